@@ -135,6 +135,38 @@ def explore_scenario(h, desc, tier, profile=False):
     except core.HarnessError as e:
         sys.setprofile(None)
         res["errors"].append(f"HarnessError: {e}")
+        # the symbolic run hit an engine / stub limitation: the scenario is inconclusive for the solver, but the concrete twin can still run the
+        # real code at a generic point of the input space (a discrepancy there is a replayed violation like any other)
+        try:
+            signal.setitimer(signal.ITIMER_REAL, 0)
+        except (ValueError, AttributeError):
+            pass
+        try:
+            if core.CTX is not None and desc.get("validate", True):
+                names = list(core.CTX.names) + list(core.CTX.pool)
+                for scale in (Fraction(1, 4), Fraction(1, 8), Fraction(1, 2), Fraction(1)):
+                    vals = {n_: scale * Fraction(17 + (7 * i) % 23, 32) for i, n_ in enumerate(names)}
+                    Mc, err = run_concrete(h, desc, vals)
+                    stubs.install()
+                    if err and err[0] == "precondition":
+                        continue
+                    hits = list(Mc.failures)
+                    if err and err[0] == "exception":
+                        hits.append(mode.Failure("exception", (desc.get("family", "") + ":exception:" + err[1].split(":")[0]).replace(" ", "_"), err[1], vals, kind="exception"))
+                    for g in hits[:3]:
+                        rec = g.to_json()
+                        rec["kind"] = "crossval"
+                        rec["replay"] = "reproduced"
+                        rec["values"] = {k: str(v) for k, v in vals.items()}
+                        rec["reproduced"] = dict(values={k: str(v) for k, v in vals.items()}, label=g.label, key=g.key, detail=str(g.detail)[:1500])
+                        res["failures"].append(rec)
+                    if not hits:
+                        res["validated"] = 1
+                    break
+        except Exception as e2:  # noqa
+            res["errors"].append(f"concrete fallback failed: {type(e2).__name__}: {e2}")
+        finally:
+            stubs.install()
         res["wall"] = time.time() - t0
         return res
     finally:
